@@ -3,7 +3,7 @@
 // an ARBITRARY Inv_SM state; every listener's cursor is arbitrary. One call of the real entry point is checked against the log model.
 // reserve_slot / try_send_reserved / send_with_async start with `leak_slot()`, which is todo!() upstream: not harnessed (outside C08/C20).
 // @module multi::channels::reference::mmap_log
-// @sizes mlog_proofs: cap2m2=thorough cap4m2=thorough cap4m4=thorough
+// @sizes mlog_proofs: cap2m2=thorough cap4m2=extended cap4m4=extended
 // @jobs 5 thorough=2
 #[allow(unused_imports)] use super::*;
 #[allow(unused_imports)] use crate::streams_manager::verif_hooks as sm;
